@@ -6,8 +6,9 @@ of analyses: the call is made inside or outside a user context, on models whose 
 succeed, report infeasibility or raise part-way, with a gene already knocked out by the user, with an empty or
 a minimising objective; the full observation (content, bounds, objective and direction, LP, gene states, context
 depth) is proved unchanged and a second call is proved to return the same uniquely defined quantities.
-Outside / not applicable: gapfill and ROOM (MILP), sampling (float numerics), production_envelope (np.linspace on
-symbolic extremes leaves object arithmetic), geometric_fba only on T1 with max_tries=2 (thorough).
+ROOM, gapfill and minimal_medium(minimize_components) run on the stub's MILP contract (DESIGN 10.4), production_envelope
+through numpy's object-dtype linspace (points=3).  Outside / not applicable: sampling (float numerics); geometric_fba only
+on T1 with max_tries<=2 (thorough).
 """
 import math
 
@@ -17,6 +18,7 @@ from cobra.flux_analysis import (find_blocked_reactions, find_essential_genes, f
                                  single_reaction_deletion, double_gene_deletion)
 from cobra.flux_analysis.fastcc import fastcc
 from cobra.flux_analysis.loopless import loopless_solution
+from cobra.flux_analysis.phenotype_phase_plane import production_envelope
 from cobra.flux_analysis.reaction import assess
 from cobra.medium import minimal_medium
 
@@ -63,6 +65,11 @@ ANALYSES = {
     "assess": lambda m: {"result": assess(m, m.reactions[1]) is True},
     "assess(existing-demand)": lambda m: {"result": assess(m, m.reactions.DM_B) is True},
     "minimal_medium": lambda m: (lambda s: {"total": None if s is None else s.sum() if len(s) else 0})(minimal_medium(m, 0.5)),
+    # MILP formulations on the stub's MILP contract (DESIGN 10.4)
+    "room": lambda m: (lambda s: {"status": s.status, "objective": s.objective_value if s.status == "optimal" else None})(_room(m)),
+    "minimal_medium(components)": lambda m: (lambda s: {"n": None if s is None else len(s)})(minimal_medium(m, 0.5, minimize_components=True)),
+    "gapfill": lambda m: {"n": len(_gapfill(m))},
+    "production_envelope": lambda m: {"shape": list(production_envelope(m, [m.reactions.R1], points=3).shape)},
     "model.summary": lambda m: {"objective": m.summary()._objective_value},
     "metabolite.summary": lambda m: {"n": len(m.metabolites[0].summary()._flux)},
     "reaction.summary": lambda m: {"n": len(m.reactions[1].summary()._flux)},
@@ -70,7 +77,25 @@ ANALYSES = {
 QUICK = ["optimize", "optimize(objective_sense,raise_error)", "slim_optimize", "fva", "fva-fraction", "fva-pfba_factor", "find_blocked_reactions", "find_essential_genes",
          "pfba", "linear-moma", "single_reaction_deletion", "single_gene_deletion", "double_gene_deletion",
          "single_gene_deletion(linear moma)", "loopless_solution", "assess", "assess(existing-demand)", "minimal_medium",
-         "model.summary"]
+         "model.summary", "production_envelope", "minimal_medium(components)", "gapfill"]
+
+
+def _room(m):
+    from cobra.flux_analysis import room
+    ref = pd.Series({r.id: 0.0 for r in m.reactions})
+    ref["EX_A"], ref["R1"], ref["DM_B"] = -4.0, 4.0, 4.0
+    from cobra import Solution
+    return room(m, solution=Solution(objective_value=10.0, status="optimal", fluxes=ref))
+
+
+def _gapfill(m):
+    from cobra import Model, Reaction
+    from cobra.flux_analysis import gapfill
+    uni = Model("universal")
+    r = Reaction("R9", lower_bound=0, upper_bound=10)
+    uni.add_reactions([r])
+    r.add_metabolites({m.metabolites.A.copy(): -1, m.metabolites.B.copy(): 1})
+    return gapfill(m, uni, demand_reactions=False)[0]
 
 
 def _same_result(E, a, b, name):
